@@ -438,7 +438,7 @@ Print Assumptions C17_gen_is_sorted_iff.
    `found` -- same group-by-group scan, same end-of-range test, same hash-run test, same equality test *)
 Theorem C17_gen_findnext_refines_model : forall count hash item eqf qh qx idx cnt, cnt < 2 ^ 62 ->
   forall findOther,
-  (forall rel o, SorterSearch.pvFindOther count item eqf (fun k => SorterSearch.fwd idx (rel + k)) (cnt - rel) = Ok o ->
+  (forall rel o, 0 <= rel -> SorterSearch.pvFindOther count item eqf (fun k => SorterSearch.fwd idx (rel + k)) (cnt - rel) = Ok o ->
      findOther (idx + rel) (cnt - rel) = idx + rel + o /\ 1 <= o) ->
   forall f rel r b, 0 <= rel ->
     SorterSearch.fn_loop count hash item eqf qh qx f (SorterSearch.fwd idx) cnt rel = Ok (r, b) ->
